@@ -63,6 +63,10 @@ pub enum Act {
     Big { r: usize, t: u8, ts: i64 },
     /// an undo point (never leaves the replica)
     UndoPoint { r: usize },
+    /// one commit of several operations: create the task and set p=a@1
+    CreateSet { r: usize, t: u8 },
+    /// one commit of several operations: delete the task, create it again and set p=c@2
+    Recreate { r: usize, t: u8 },
     Sync { r: usize, urg: Urg, avoid: bool },
 }
 
@@ -74,6 +78,8 @@ impl Act {
             | Act::Update { r, .. }
             | Act::Big { r, .. }
             | Act::UndoPoint { r }
+            | Act::CreateSet { r, .. }
+            | Act::Recreate { r, .. }
             | Act::Sync { r, .. } => *r,
         }
     }
@@ -122,7 +128,34 @@ pub fn local_op(tasks: &Tasks, a: &Act) -> Option<Operation> {
             })
         }
         Act::UndoPoint { .. } => Some(Operation::UndoPoint),
+        Act::CreateSet { .. } | Act::Recreate { .. } => None,
         Act::Sync { .. } => None,
+    }
+}
+
+/// The valid local operations (one commit) for an action; empty when it is not valid there.
+pub fn local_ops(tasks: &Tasks, a: &Act) -> Vec<Operation> {
+    match a {
+        Act::CreateSet { t, .. } => {
+            let u = tid(*t);
+            if tasks.contains_key(&u) {
+                return vec![];
+            }
+            vec![
+                Operation::Create { uuid: u },
+                Operation::Update { uuid: u, property: "p".into(), old_value: None, value: Some("a".into()), timestamp: ts(1) },
+            ]
+        }
+        Act::Recreate { t, .. } => {
+            let u = tid(*t);
+            let Some(old) = tasks.get(&u) else { return vec![] };
+            vec![
+                Operation::Delete { uuid: u, old_task: old.clone().into_iter().collect() },
+                Operation::Create { uuid: u },
+                Operation::Update { uuid: u, property: "p".into(), old_value: None, value: Some("c".into()), timestamp: ts(2) },
+            ]
+        }
+        other => local_op(tasks, other).into_iter().collect(),
     }
 }
 
@@ -183,14 +216,15 @@ pub fn do_sync(w: &mut World, r: usize, urg: Urg, avoid: bool, sctl: Option<Arc<
 pub fn do_local(w: &mut World, a: &Act) -> Result<bool, String> {
     let r = a.replica();
     let obs = w.obs[r].clone();
-    let Some(op) = local_op(&obs.tasks, a) else {
+    let ops_ = local_ops(&obs.tasks, a);
+    if ops_.is_empty() {
         return Ok(false);
-    };
+    }
     if matches!(a, Act::Big { .. }) {
         w.big_used += 1;
     }
     crate::util::block_on(with_replica(&mut w.reps[r], Ctl::new(), async |rep| {
-        rep.commit_operations(vec![op]).await.map_err(|e| format!("commit failed: {e:#}"))
+        rep.commit_operations(ops_).await.map_err(|e| format!("commit failed: {e:#}"))
     }))?;
     w.obs[r] = Arc::new(obs_of(&mut w.reps[r]));
     Ok(true)
@@ -349,6 +383,8 @@ pub fn act_str(a: &Act) -> String {
         ),
         Act::Big { r, t, ts } => format!("R{r}:T{t}.f=<1000001 bytes>@{ts}"),
         Act::UndoPoint { r } => format!("R{r}:undo-point"),
+        Act::CreateSet { r, t } => format!("R{r}:commit[create T{t}; T{t}.p=a@1]"),
+        Act::Recreate { r, t } => format!("R{r}:commit[delete T{t}; create T{t}; T{t}.p=c@2]"),
         Act::Sync { r, urg, avoid } => format!("R{r}:sync(urgency={urg:?},avoid={avoid})"),
     }
 }
